@@ -319,6 +319,8 @@ impl ISocket for ReqSocket {
   async fn process_command(&self, command: Command) -> Result<bool, ZmqError> {
     match command {
       Command::Stop => {
+        // Release a send() that is waiting for its first peer (as PUSH/DEALER do on Stop).
+        self.load_balancer.deactivate();
         self.ingress_engine.close();
         self.reply_available_notifier.notify_waiters();
       }
